@@ -35,49 +35,67 @@ Fixpoint lexcmp (a b : list Z) : comparison :=
 Definition cmp_of (order : Z) (a b : Z) : comparison :=
   if order =? 0 then a ?= b
   else if order =? 1 then b ?= a
-  else if order =? 2 then match Z.rem a 4 ?= Z.rem b 4 with Eq => a ?= b | c => c end
-  else lexcmp (str_of a) (str_of b).
+  else match Z.rem a 4 ?= Z.rem b 4 with Eq => a ?= b | c => c end.
 
-Definition stopf (n : Z) : nat -> Z -> Z -> bool := fun i _ _ => negb (Z.of_nat (S i) =? n).
+Definition str_back (l : list Z) : Z := fold_right (fun d acc => acc * 3 + (d - 97) + 1) 0 l.
 
-Definition dec_op (c a b d : Z) : option (op Z Z) :=
-  if c =? 0 then Some OInit else if c =? 1 then Some (OSet a b) else if c =? 2 then Some (OSetNx a b) else
-  if c =? 3 then Some (OSetX a b) else if c =? 4 then Some (OGet a) else if c =? 5 then Some (OGetNode a) else
-  if c =? 6 then Some (ONodeSet a b) else if c =? 7 then Some OLen else if c =? 8 then Some OHead else
-  if c =? 9 then Some OWalk else if c =? 10 then Some (ORemove a) else if c =? 11 then Some OClear else
+Section Dec.
+Variable K : Type.
+Variable kd : Z -> K.     (* key token -> key *)
+Variable ke : K -> Z.     (* key -> key token *)
+Definition stopf (n : Z) : nat -> K -> Z -> bool := fun i _ _ => negb (Z.of_nat (S i) =? n).
+Definition dec_op (c a b d : Z) : option (op K Z) :=
+  if c =? 0 then Some OInit else if c =? 1 then Some (OSet (kd a) b) else if c =? 2 then Some (OSetNx (kd a) b) else
+  if c =? 3 then Some (OSetX (kd a) b) else if c =? 4 then Some (OGet (kd a)) else if c =? 5 then Some (OGetNode (kd a)) else
+  if c =? 6 then Some (ONodeSet (kd a) b) else if c =? 7 then Some OLen else if c =? 8 then Some OHead else
+  if c =? 9 then Some OWalk else if c =? 10 then Some (ORemove (kd a)) else if c =? 11 then Some OClear else
   if c =? 12 then Some (ORange (stopf a)) else if c =? 13 then Some (OAll (stopf a)) else
   if c =? 14 then Some OKeys else if c =? 15 then Some OValues else
-  if c =? 16 then Some (ORangeStart a (stopf b)) else if c =? 17 then Some (ORangeRange a b (stopf d)) else
+  if c =? 16 then Some (ORangeStart (kd a) (stopf b)) else if c =? 17 then Some (ORangeRange (kd a) (kd b) (stopf d)) else
   if c =? 18 then Some OShape else None.
-Fixpoint dec_ops (fuel : nat) (l : list Z) : option (list (op Z Z)) :=
+Fixpoint dec_ops (fuel : nat) (l : list Z) : option (list (op K Z)) :=
   match fuel, l with
   | _, [] => Some []
   | S f, c :: a :: b :: d :: r =>
       match dec_op c a b d, dec_ops f r with Some o, Some os => Some (o :: os) | _, _ => None end
   | _, _ => None
   end.
-Fixpoint dec_words (n : nat) (l : list Z) : option (list Z * list Z) :=
-  match n, l with
-  | O, _ => Some ([], l)
-  | S k, hi :: lo :: r => match dec_words k r with Some (ws, r') => Some ((hi * 4294967296 + lo) :: ws, r') | None => None end
-  | _, _ => None
-  end.
-
-Definition enc_pairs (l : list (Z * Z)) : list Z := put_list (flat_map (fun p => [fst p; snd p]) l).
-Definition enc_res (wild : bool) (r : res Z Z) : list Z :=
+Definition enc_pairs (l : list (K * Z)) : list Z := put_list (flat_map (fun p => [ke (fst p); snd p]) l).
+Definition enc_res (wild : bool) (r : res K Z) : list Z :=
   match r with
   | RUnit => []
   | RBool b => [zb b]
   | RVal (Some v) => [v; 1]
   | RVal None => [0; 0]
   | RNode None => [0]
-  | RNode (Some (k, v, None)) => [1; k; v; 0]
-  | RNode (Some (k, v, Some k')) => [1; k; v; 1; k']
+  | RNode (Some (k, v, None)) => [1; ke k; v; 0]
+  | RNode (Some (k, v, Some k')) => [1; ke k; v; 1; ke k']
   | RLen n => [n]
   | RPairs l => enc_pairs l
-  | RKeys l => put_list l
+  | RKeys l => put_list (map ke l)
   | RVals l => put_list l
   | RShape lv hs => if wild then WILD :: put_list (map (fun _ => WILD) hs) else Z.of_nat lv :: put_list (of_nats hs)
+  end.
+(* the whole case for one key type and comparator *)
+Definition run_case (cmp : K -> K -> comparison) (vr : variant) (sub : Z) (ws r' : list Z) : list Z :=
+  match dec_ops (length r') r' with
+  | Some ops =>
+      if sub =? 0 then
+        match run K Z cmp 0 vr zero ops ws with
+        | Some rs => flat_map (enc_res false) rs
+        | None => [PANIC]
+        end
+      else if sub =? 1 then flat_map (enc_res true) (s_run K Z cmp [] ops)
+      else [BADCASE]
+  | None => [BADCASE]
+  end.
+End Dec.
+
+Fixpoint dec_words (n : nat) (l : list Z) : option (list Z * list Z) :=
+  match n, l with
+  | O, _ => Some ([], l)
+  | S k, hi :: lo :: r => match dec_words k r with Some (ws, r') => Some ((hi * 4294967296 + lo) :: ws, r') | None => None end
+  | _, _ => None
   end.
 
 Definition entry (sub : Z) (args : list Z) : list Z :=
@@ -88,17 +106,8 @@ Definition entry (sub : Z) (args : list Z) : list Z :=
       if (kind <? 0) || (7 <? kind) || ((kind =? 1) || (kind =? 2)) || (nw <? 0) then [BADCASE] else
       match dec_words (Z.to_nat nw) r with
       | Some (ws, r') =>
-          match dec_ops (length r') r' with
-          | Some ops =>
-              if sub =? 0 then
-                match run Z Z (cmp_of order) 0 vr zero ops ws with
-                | Some rs => flat_map (enc_res false) rs
-                | None => [PANIC]
-                end
-              else if sub =? 1 then flat_map (enc_res true) (s_run Z Z (cmp_of order) [] ops)
-              else [BADCASE]
-          | None => [BADCASE]
-          end
+          if order =? 3 then run_case (list Z) str_of str_back lexcmp vr sub ws r'        (* string keys *)
+          else run_case Z (fun z => z) (fun z => z) (cmp_of order) vr sub ws r'
       | None => [BADCASE]
       end
   | _ => [BADCASE]
@@ -123,4 +132,8 @@ Proof. vm_compute. reflexivity. Qed.
 Example anchor4 : (* reversed comparator, RangeWithRange(5, 1) = keys 5,4,3,2 ; stop after 3 calls *)
   entry 0 [5; 0; 0;0;0;0; 1;1;10;0; 1;3;30;0; 1;5;50;0; 1;4;40;0; 1;2;20;0; 17;5;1;3; 16;3;0;0]
   = [6; 5;50; 4;40; 3;30; 6; 3;30; 2;20; 1;10].
+Proof. vm_compute. reflexivity. Qed.
+Example anchor5 : (* string keys: "" < "a" < "aa" < "ab" < "b"; tokens 0,1,4,7,2 *)
+  entry 0 [3; 0; 1;2;20;0; 1;7;70;0; 1;0;5;0; 1;4;40;0; 1;1;10;0; 14;0;0;0; 16;4;0;0; 5;1;0;0]
+  = [5; 0;1;4;7;2; 6; 4;40; 7;70; 2;20; 1;1;10;1;4].
 Proof. vm_compute. reflexivity. Qed.
